@@ -1152,13 +1152,57 @@ def _switches_are_plain(ctx):
     return seen_ >= 2
 
 
-def _vertex_border_test(fn):
-    """`is_vertex_on_border(x) and is_vertex_on_border(y)` used where the border status of the edge (x, y) is meant: the conjunction node, or None"""
+def _vertex_flag_tables(ctx):
+    """names of the attributes `self.T` of the edge-tree classes filled with one `is_vertex_on_border(v)` per vertex (a cached per-vertex border flag)"""
+    out = set()
+    try:
+        mod = ctx.repo.module(EDGE)
+    except Exception:
+        return out
+    for q, f in mod.funcs.items():
+        for st in au.stmts(f.body):
+            if isinstance(st, (ast.Assign, ast.AnnAssign)) and st.value is not None:
+                v = st.value
+                per_vertex = (isinstance(v, (ast.ListComp, ast.DictComp)) and
+                              any(isinstance(c_, ast.Call) and au.call_tail(c_) == "is_vertex_on_border"
+                                  for c_ in ast.walk(v.elt if isinstance(v, ast.ListComp) else v.value)))
+                if per_vertex:
+                    for t in au.assign_targets(st):
+                        if au.is_self_attr(t):
+                            out.add(t.attr)
+    return out
+
+
+def _vertex_border_test(fn, ctx=None, _depth=0):
+    """`is_vertex_on_border(x) and is_vertex_on_border(y)` used where the border status of the edge (x, y) is meant: the conjunction node, or None.
+    With ctx: cached per-vertex flags `self.T[x] and self.T[y]` count as well, private helpers `self._h(..)` called by fn are followed, and the
+    conjunction only counts when neither fn nor the helper consults is_edge_on_border (a per-vertex pre-filter in front of the edge test is exact)."""
+    tables = _vertex_flag_tables(ctx) if ctx is not None else set()
+
+    def vflag(v):
+        if isinstance(v, ast.Call) and au.call_tail(v) == "is_vertex_on_border" and len(v.args) == 1:
+            return au.src(v.args[0])
+        if isinstance(v, ast.Subscript) and au.is_self_attr(v.value) and v.value.attr in tables:
+            return au.src(v.slice)
+        return None
     for n in au.walk(fn):
         if isinstance(n, ast.BoolOp) and isinstance(n.op, ast.And):
-            vs = [v for v in n.values if isinstance(v, ast.Call) and au.call_tail(v) == "is_vertex_on_border" and len(v.args) == 1]
-            if len(vs) >= 2 and len({au.src(v.args[0]) for v in vs}) >= 2:
+            vs = [vflag(v) for v in n.values if vflag(v) is not None]
+            if len(vs) >= 2 and len(set(vs)) >= 2:
+                if ctx is not None and any(au.call_tail(c_) == "is_edge_on_border" for c_ in au.calls(fn)):
+                    return None
                 return n
+    if ctx is not None and _depth < 2:
+        for c_ in au.calls(fn):
+            if isinstance(c_.func, ast.Attribute) and isinstance(c_.func.value, ast.Name) and c_.func.value.id == "self" and c_.func.attr.startswith("_"):
+                for cn in ("EdgeMinimalSpanningTree", "EdgeSpanningTree"):
+                    if ctx.repo.has_func(EDGE, cn + "." + c_.func.attr):
+                        if any(au.call_tail(x_) == "is_edge_on_border" for x_ in au.calls(fn)):
+                            return None
+                        r = _vertex_border_test(ctx.repo.func(EDGE, cn + "." + c_.func.attr), ctx, _depth + 1)
+                        if r is not None:
+                            return r
+                        break
     return None
 
 
@@ -1199,6 +1243,8 @@ def avoid_edge_predicate(ctx):
                 bad = bad or env
     except _Unknown as ex:
         vb = _vertex_border_test(F.fn)
+        if vb is None:
+            vb = _vertex_border_test(fn0, ctx)
         if vb is not None:
             ctx.fail("C10-X1", ctx.site(EDGE, fn0, vb), "the border status of an edge is decided from the border status of its two end points",
                      "an interior edge whose end points both lie on the border (a chord of a thin strip, an ear) is taken for a border edge: with avoid_boundary "
@@ -1840,8 +1886,8 @@ def _k1_admissible(ctx, F, fn0, LIST, lp, sort_node):
     elif all(v in ("all", "filtered", "inverted") for v in res.values()):
         ctx.fail(R, site, "admissible edges are not `all edges, or the non-border edges exactly when avoid_boundary is set on a non-polyline`",
                  f"selection per (avoid_boundary, polyline): {res} - the BFS tree excludes an edge iff avoid_boundary and not polyline and is_edge_on_border")
-    elif _vertex_border_test(fn) is not None:
-        ctx.fail(R, ctx.site(EDGE, fn0, _vertex_border_test(fn)), "the border status of an edge is decided from the border status of its two end points",
+    elif (_vertex_border_test(fn) or _vertex_border_test(fn0, ctx)) is not None:
+        ctx.fail(R, ctx.site(EDGE, fn0, _vertex_border_test(fn) or _vertex_border_test(fn0, ctx)), "the border status of an edge is decided from the border status of its two end points",
                  "an interior edge whose end points both lie on the border is dropped from Kruskal's candidates: the result is not a minimum spanning "
                  "forest of the admissible edges")
     else:
